@@ -154,10 +154,11 @@ class Gen:
             if c < 0.95:
                 self.features.add("int-float-promotion")
                 op = self.pick(["+", "-", "*"])
-                # float on the LEFT only: `int op float` is typed as int by inference and then
-                # misread by typed integer opcodes when nested (known finding KF-C02-1 / C06)
-                # ... and an int LITERAL only: a float-typed op fed an int from an untyped parameter is
-                # the other half of the same known typed-fast-path defect
+                # an int LITERAL only: a float-typed op fed an int from an untyped parameter is a
+                # known typed-fast-path defect (KF-C06-1); `int OP float` was typed int until
+                # /repo 1cf0449 (KF-C02-1, fixed) and is generated again
+                if self.chance(0.5):
+                    return f"({self.int_lit()} {op} {self.expr(sc, 'flt', d + 1)})"
                 return f"({self.expr(sc, 'flt', d + 1)} {op} {self.int_lit()})"
             return f"(-{self.expr(sc, 'flt', d + 1)})"
         if ty == "str":
@@ -416,7 +417,8 @@ class Gen:
                 out.append("    let more = other * 2")
                 out.append("    print(more)")
             out.append("    print(inc() + inc())")
-            out.append("    return other * 100 + count")
+            # sometimes the captured counter is never mentioned again by the function itself
+            out.append("    return other * 100 + count" if self.chance(0.5) else "    return other * 100 + inc()")
             out.append("}")
             self.funcs[name] = ([], "int")
         elif kind == 3:         # single-expression function over parameters (inliner bait)
